@@ -179,6 +179,7 @@ type built struct {
 	cfgIDs  []int
 	fired   int
 	missing map[string]bool
+	subst   map[string]bool // substituted before instantiation: never populated / initialised by the container
 }
 
 func build(b *Base, faults []Site) *built {
@@ -226,7 +227,7 @@ func build(b *Base, faults []Site) *built {
 	}
 	s.RegPerm = nil
 	in := s.Instantiate()
-	bu := &built{in: in, missing: missing}
+	bu := &built{in: in, missing: missing, subst: map[string]bool{}}
 	idOf := func(c any) int {
 		v := reflect.ValueOf(c)
 		if v.Kind() == reflect.Pointer {
@@ -317,6 +318,15 @@ func build(b *Base, faults []Site) *built {
 		}
 	}
 	var substPP *graph.WrapPP
+	// an observer rejects ONE name after initialization: of several such faults on one observer the last one is in
+	// force, and only its component is substituted (a substituted component whose rejection never fires would change
+	// what gets created at all)
+	effSubst := map[int]string{}
+	for _, f := range faults {
+		if f.Kind == "pp-after-subst" || f.Kind == "pp-after" {
+			effSubst[f.A] = f.Name
+		}
+	}
 	for _, f := range faults {
 		if f.Kind == "unsat-uninjectable" {
 			var c any
@@ -334,13 +344,14 @@ func build(b *Base, faults []Site) *built {
 			addExtra(c, bh)
 			bu.fired++ // structural: the required point can never be satisfied
 		}
-		if f.Kind == "pp-after-subst" {
+		if f.Kind == "pp-after-subst" && effSubst[f.A] == f.Name {
 			// the component is substituted before instantiation; observer f.A rejects the substitute after initialization
 			if substPP == nil {
 				substPP = &graph.WrapPP{Plan: map[string]graph.WrapPlan{}, IDOf: idOf}
 				in.Extra = append(in.Extra, substPP)
 			}
 			substPP.Plan[f.Name] = graph.WrapPlan{Inst: graph.WrapNew}
+			bu.subst[f.Name] = true
 		}
 	}
 	fpp := &FactoryPP{fired: &bu.fired}
@@ -573,7 +584,7 @@ func decide(t fataler, b *Base, faults []Site) {
 			if !ok {
 				continue
 			}
-			if mc := g.Find(c); mc != nil && must[mc] && n.Beh().InitCalls != 1 {
+			if mc := g.Find(c); mc != nil && must[mc] && !bu.subst[mc.Name] && n.Beh().InitCalls != 1 {
 				t.Fatalf("C09: Run returned nil but the eagerly created component %s ran Init %d times (a failing callback there could never be reported)\n%s", mc.Name, n.Beh().InitCalls, desc)
 			}
 		}
